@@ -303,7 +303,7 @@ def c16_extra(Job, tier):
     cfg = CFG_NDEBUG
     return [Job("D_connect_drives_%s" % cfg[0], "harness/dfs_storage.c", "h_connect", enforce=["connect_drives"],
                 replace=["check_sequence_fits", "SurfaceSelector_next"], loops=True, defines=list(cfg[1]),
-                extract=ext(STORAGE_GROUP + ["connect_drives"]), tier="quick", cover=True, solver="portfolio", timeout=900)] + viewfile_jobs(Job) + mmb_jobs(Job) + mainopt_jobs(Job) + selector_jobs(Job)
+                extract=ext(STORAGE_GROUP + ["connect_drives"]), tier="quick", cover=True, solver="portfolio", timeout=900)] + viewfile_jobs(Job) + mmb_jobs(Job) + mainopt_jobs(Job) + selector_jobs(Job) + showconfig_jobs(Job)
 
 
 # ---- C17 extra: Opus volume extents ----------------------------------------------------------------------------
@@ -372,7 +372,7 @@ def c11_jobs(Job, tier):            # noqa: F811  (replaces the placeholder abov
 
 
 def c14_extra(Job, tier):
-    return write_span_jobs(Job) + space_jobs(Job) + spans_jobs(Job) + [j for j in fragment_jobs(Job) if "ctor" in j.name] + [j for j in volctor_jobs(Job) if "origin" in j.name or "map_sectors" in j.name]
+    return write_span_jobs(Job) + space_jobs(Job) + spans_jobs(Job) + [j for j in fragment_jobs(Job) if "ctor" in j.name] + [j for j in volctor_jobs(Job) if "origin" in j.name or "map_sectors" in j.name] + sectormap_jobs(Job)
 
 
 # ---- check_track_is_supported (C06 iii, C07) -------------------------------------------------------------------------
@@ -584,13 +584,13 @@ def geometry_jobs(Job, cfg=CFG_NDEBUG, tier="quick"):
 
 
 def c13_extra(Job, tier):
-    return geometry_jobs(Job) + [j for j in fragment_jobs(Job) if "valid_" in j.name] + opussmell_jobs(Job) + [j for j in opus_jobs(Job) if "extents" in j.name or "opus_ctor_head" in j.name or "opus_volume_table" in j.name]
+    return geometry_jobs(Job) + hints_jobs(Job) + [j for j in fragment_jobs(Job) if "valid_" in j.name] + opussmell_jobs(Job) + [j for j in opus_jobs(Job) if "extents" in j.name or "opus_ctor_head" in j.name or "opus_volume_table" in j.name]
 
 
 def hints_jobs(Job, cfg=CFG_NDEBUG, tier="quick"):
     return [Job("D_candidate_hints_%s" % cfg[0], "harness/dfs_hints.c", "h_candidate_hints", enforce=["candidate_hints"],
                 defines=list(cfg[1]), extract=ext(["candidate_hints"]), tier=tier,
-                cbmc=["--unwindset", "lit_ext.0:6", "--unwinding-assertions"])]
+                cbmc=["--unwindset", "lit_ext.0:6", "--unwinding-assertions"])] + suffix_jobs(Job, cfg, tier)       # the suffix functions the hints are made with
 
 
 def spans_jobs(Job, cfg=CFG_NDEBUG, tier="quick"):
@@ -693,15 +693,35 @@ def showtitles_jobs(Job, cfg=CFG_NDEBUG, tier="quick"):
                 extract=ext(["show_titles_loop"]), tier=tier)]
 
 
+def suffix_jobs(Job, cfg=CFG_NDEBUG, tier="quick"):
+    g = ["su_ends_with", "su_remove_suffix"]
+    uw = ["--unwindset", "rev_equal_model.0:16,cstr_find_model.0:17,cstr_find_model.1:16,cstr_erase_model.0:16", "--unwinding-assertions"]
+    return [Job("D_su_ends_with_%s" % cfg[0], "harness/dfs_suffix.c", "h_ends_with", enforce=["su_ends_with"], defines=list(cfg[1]), extract=ext(g), tier=tier, cbmc=uw),
+            Job("D_su_remove_suffix_%s" % cfg[0], "harness/dfs_suffix.c", "h_remove_suffix", enforce=["su_remove_suffix"], defines=list(cfg[1]), extract=ext(g), tier=tier, cbmc=uw)]
+
+
+def showconfig_jobs(Job, cfg=CFG_NDEBUG, tier="quick"):
+    g = ["SurfaceSelector_postincrement", "acorn_default_last_surface", "show_config_range"]
+    def J(name, entry, enforce, replace=(), **kw):
+        return Job("D_%s_%s" % (name, cfg[0]), "harness/dfs_showconfig.c", entry, enforce=enforce, replace=list(replace), defines=list(cfg[1]), extract=ext(g), tier=tier, **kw)
+    return [J("surface_postincrement", "h_postincrement", ["SurfaceSelector_postincrement"]), J("acorn_default_last_surface", "h_acorn_last", ["acorn_default_last_surface"]),
+            J("show_config_range", "h_show_config_range", ["show_config_range"], ["acorn_default_last_surface"], loops=True)]     # postincrement inlined (it is in the loop condition)
+
+
+def sectormap_jobs(Job, cfg=CFG_NDEBUG, tier="quick"):
+    return [Job("D_get_sector_map_%s" % cfg[0], "harness/dfs_sectormap.c", "h_get_sector_map", enforce=["get_sector_map"], loops=True, defines=list(cfg[1]),
+                extract=ext(["get_sector_map"]), tier=tier)]
+
+
 def prefix_jobs(Job, cfg=CFG_NDEBUG, tier="quick"):
-    g = ["VolumeSelector_to_string", "afsp_drive_prefix", "afsp_directory_prefix", "afsp_assemble"]
+    g = ["VolumeSelector_to_string", "afsp_drive_prefix", "afsp_directory_prefix", "afsp_assemble", "VolumeSelector_assign"]
     uw = ["--unwindset", "cstr_append.0:16", "--unwinding-assertions"]
     def J(name, entry, enforce, **kw):
         return Job("D_%s_%s" % (name, cfg[0]), "harness/dfs_prefix.c", entry, enforce=enforce, defines=list(cfg[1]), extract=ext(g), tier=tier, cbmc=uw, **kw)
     return [J("volume_selector_to_string", "h_vol_to_string", ["VolumeSelector_to_string"]),
             J("afsp_drive_prefix", "h_drive_prefix", ["afsp_drive_prefix"]),
             J("afsp_directory_prefix", "h_directory_prefix", ["afsp_directory_prefix"]),
-            J("afsp_assemble", "h_assemble", ["afsp_assemble"])]
+            J("afsp_assemble", "h_assemble", ["afsp_assemble"]), J("volume_selector_assign", "h_vol_assign", ["VolumeSelector_assign"])]
 
 
 def volctor_jobs(Job, cfg=CFG_NDEBUG, tier="quick"):
